@@ -293,7 +293,7 @@ func RunC20(cfg simrt.Config, o world.Opts) *world.Result {
 	s.Inline(func() {
 		// directory names that begin with two dots are ordinary names
 		before := progen.Gen(progen.Options{MaxFiles: 3, MaxDefs: 5, WantService: true, Unions: true, Exceptions: true, Defaults: true, Consts: true,
-			ExtraDirs: []string{"..arch", "..arch/v1"}})
+			ExtraDirs: []string{"..arch", "..arch/v1", "50%done", "my%20idl/%s"}})
 		// a twin: the same content under the same base name in another directory, edited
 		// the same way (two files then yield textually identical diagnostics)
 		twinOf, twin := -1, -1
@@ -408,8 +408,46 @@ func RunC20(cfg simrt.Config, o world.Opts) *world.Result {
 		if err := writeVersion(repo, after); err != nil {
 			panic(err)
 		}
-		if _, err := commitWith(wt, "after", 9, parents); err != nil {
+		head, err := commitWith(wt, "after", 9, parents)
+		if err != nil {
 			panic(err)
+		}
+		// the directory the tool is pointed at: the repository's own work tree, or a linked one
+		// (`git worktree add`: a `.git` FILE naming an administrative directory below the main
+		// repository's .git, which holds HEAD and the way back to the common directory)
+		target := repo
+		linked := filepath.Join(wdir, "linked")
+		os.RemoveAll(linked)
+		if simrt.Flip("c20.linked-worktree", 0.12) {
+			admin := filepath.Join(repo, ".git", "worktrees", "linked")
+			headLine := head.String()
+			if ch("c20.linked-head", 2) == 1 {
+				if ref, err := r.Head(); err == nil && ref.Name().IsBranch() {
+					headLine = "ref: " + ref.Name().String()
+				}
+			}
+			for _, d := range []string{admin, linked} {
+				if err := os.MkdirAll(d, 0755); err != nil {
+					panic(err)
+				}
+			}
+			for name, content := range map[string]string{
+				filepath.Join(admin, "HEAD"):      headLine + "\n",
+				filepath.Join(admin, "commondir"): "../..\n",
+				filepath.Join(admin, "gitdir"):    filepath.Join(linked, ".git") + "\n",
+				filepath.Join(linked, ".git"):     "gitdir: " + admin + "\n",
+			} {
+				if err := os.WriteFile(name, []byte(content), 0644); err != nil {
+					panic(err)
+				}
+			}
+			if err := writeVersion(linked, after); err != nil {
+				panic(err)
+			}
+			target = linked
+			defer os.RemoveAll(linked)
+			logf("the tool is pointed at a linked work tree of the repository (HEAD there: %s)", headLine)
+			res.Count("c20.linked-worktrees", 1)
 		}
 		// The verdict is about the two committed versions. Afterwards the work tree may hold
 		// anything: the previous version again, no Thrift files at all, or a further edit.
@@ -468,21 +506,21 @@ func RunC20(cfg simrt.Config, o world.Opts) *world.Result {
 			jsonMode := i%2 == 1
 			// how the repository is named: absolute path, relative path from its parent, or not
 			// at all (the tool then takes the current directory)
-			args := []string{"-C", repo}
+			args := []string{"-C", target}
 			cwd := ""
 			switch ch("c20.repo-arg", 4) {
 			case 1:
-				cwd, args = filepath.Dir(repo), []string{"-C", filepath.Base(repo)}
+				cwd, args = filepath.Dir(target), []string{"-C", filepath.Base(target)}
 			case 2:
-				cwd, args = repo, nil
+				cwd, args = target, nil
 			case 3:
-				cwd, args = repo, []string{"-C", "."}
+				cwd, args = target, []string{"-C", "."}
 			}
 			// ... or by one of its sub-directories (the repository is found from there; paths in
 			// diagnostics stay relative to the repository)
 			if sub := subdirs(before, after); len(sub) > 0 && simrt.Flip("c20.repo-subdir", 0.15) {
 				d := sub[ch("c20.repo-subdir-pick", len(sub))]
-				cwd, args = "", []string{"-C", filepath.Join(repo, filepath.FromSlash(d))}
+				cwd, args = "", []string{"-C", filepath.Join(target, filepath.FromSlash(d))}
 				logf("repository named by its sub-directory %s", d)
 				res.Count("c20.repository-named-by-a-subdirectory", 1)
 			}
@@ -526,10 +564,13 @@ func RunC20(cfg simrt.Config, o world.Opts) *world.Result {
 				// the tool failed without diagnostics (e.g. a compile error): the
 				// generator promised compilable versions, so this is worth a look,
 				// but it is not one of the property's clauses
-				res.Notes = append(res.Notes, "thriftbreak failed without diagnostics: "+first80(got.err.Error()))
-				res.Count("c20.note.tool-error-without-diagnostics", 1)
+				res.Count("c20.tool-error-without-diagnostics", 1)
 				if len(expected) > 0 {
 					res.Failf("C20/missed-breaking-change", "%s: expected %v but the tool failed with: %s", desc, expected, first80(got.err.Error()))
+				} else {
+					// both versions compile (the model rolls back edits that would not) and nothing
+					// breaking separates them: the tool exits non-zero exactly when it has a diagnostic
+					res.Failf("C20/exit-status", "%s: nothing to report, but the tool failed with: %s", desc, first80(got.err.Error()))
 				}
 				return
 			}
